@@ -5,10 +5,12 @@ real Python objects.  Used by C12 / C13 (and the closure for C15)."""
 import itertools
 
 # classes: 1 object, 2 A, 3 B(A), 4 C, 5 D(B, C), 6 Abs (ABC; C registered), 7 int, 8 bool(int), 9 str
-PARENTS = [[], [1], [2], [1, 6], [3, 4], [1], [1], [7], [1]]
-KINDS = ["object", "plain", "plain", "plain", "plain", "abc", "builtin:int", "builtin:bool", "builtin:str"]
-VIRT = [[4, 6]]
-ATTRS = [[], ["ma"], [], ["mc"], [], [], [], [], []]
+# 10 P1, 11 P2: two structurally identical runtime protocols (method `ma`): mutual virtual subclasses, implemented by A
+PARENTS = [[], [1, 10, 11], [2], [1, 6], [3, 4], [1], [1], [7], [1], [1], [1]]
+KINDS = ["object", "plain", "plain", "plain", "plain", "abc", "builtin:int", "builtin:bool", "builtin:str", "proto:ma", "proto:ma"]
+VIRT = [[4, 6], [2, 10], [2, 11]]
+EQUIV = [[10, 11]]
+ATTRS = [[], ["ma"], [], ["mc"], [], [], [], [], [], ["ma"], ["ma"]]
 NCLS = len(PARENTS)
 
 
@@ -63,6 +65,8 @@ def universe(depth2=True, big=False):
     add({"k": "gen", "origin": dct, "oname": "dict", "args": [cls[9], cls[2]]})
     add({"k": "gen", "origin": dct, "oname": "dict", "args": [cls[9], cls[3]]})
     add({"k": "gen", "origin": dct, "oname": "dict", "args": [cls[9]]})  # same origin, other arity
+    add({"k": "gen", "origin": lst, "oname": "list", "args": [cls[10]]})
+    add({"k": "gen", "origin": lst, "oname": "list", "args": [cls[11]]})
     add({"k": "typeof", "arg": gl[2]})
     add({"k": "typeof", "arg": gl[3]})
     if depth2:
@@ -97,7 +101,12 @@ class Realizer:
             if kind.startswith("builtin:"):
                 classes.append({"int": int, "bool": bool, "str": str}[kind.split(":")[1]])
                 continue
-            ps = sorted([p for p in PARENTS[c - 1] if p != 1 and [c, p] not in VIRT], reverse=True)
+            if kind.startswith("proto:"):
+                meth = kind.split(":")[1]
+                pc = type(typing.Protocol)(f"K{c}", (typing.Protocol,), {"__module__": "vfworld", meth: lambda self: None})
+                classes.append(typing.runtime_checkable(pc))
+                continue
+            ps = sorted([p for p in PARENTS[c - 1] if p != 1 and [c, p] not in VIRT and p < c], reverse=True)
             bases = tuple(classes[p] for p in ps)
             ns = {"__module__": "vfworld"}
             for a in ATTRS[c - 1]:
@@ -108,7 +117,8 @@ class Realizer:
                 cls = type(f"K{c}", bases or (object,), ns)
             classes.append(cls)
         for c, p in VIRT:
-            classes[p].register(classes[c])
+            if KINDS[p - 1] == "abc":
+                classes[p].register(classes[c])
         self.classes = classes
         self.preds = {"pos": lambda x: x > 0, "even": lambda x: x % 2 == 0, "any": lambda x: True}
         self.cache = {}
